@@ -6,6 +6,7 @@ explicit tolerances; nothing is compared float against float.
 -/
 import Spade.Extra
 import Spade.Algo.Locate
+import Spade.Algo.Insert
 namespace Spade
 
 def scale1074N : Nat := 2 ^ 1074
@@ -434,6 +435,25 @@ def judgeExtra2 (hNew hOld : HCtx) (op res : Array String) (dump : Option St) : 
           (hNew, chk (sameNatSet vs cv && vs.eraseDups.length == vs.length) "C19" "natural-neighbors-wrong" feat ++
                  (if wellConditioned s fsx 12 then chk (weightsNumericOK s q ws k) "C19" "weights-numerically-wrong" feat else []))
     | _, _ => (hNew, [⟨"INTERNAL", "protocol", s!"{name}: {res.toList}"⟩])
+  | "ins" | "insh" =>
+    -- R3: the insertion model (DCEL operations + locate + legalisation) must reproduce the
+    -- implementation's arrays index for index (plain Delaunay triangulations, integer families;
+    -- without an explicit hint only where the hint is not used: < 2 vertices or collinear)
+    if hOld.kind == "dt" && exactFam hOld.fam && r0 == "ok" then
+      match parsePt (op.getD 1 "") (op.getD 2 ""), parseNat (op.getD 3 ""), dump with
+      | some p, some dat, some d =>
+        let hint? : Option Nat := if name == "insh" then parseNat (op.getD 4 "")
+          else if s.nV < 2 || s.nF == 1 then some 0 else none
+        match hint? with
+        | none => (hNew, [])
+        | some hint =>
+          match s.insertM p dat hint with
+          | some (m, v) =>
+            (hNew, chk (St.sameStructure m d && res.getD 1 "" == toString v) "C02:model,C05:model"
+              "insert-model-differs" (fun _ => s!"p={p} hint={hint} model_handle={v} impl={res.toList} nv={s.nV} nf={s.nF}"))
+          | none => (hNew, [⟨"C02:model", "insert-model-failed", s!"p={p} hint={hint}"⟩])
+      | _, _, _ => (hNew, [])
+    else (hNew, [])
   | "loch" =>
     -- R3: the code-mirroring model of locate_with_hint on the dumped links must give the very same
     -- answer as the implementation (two-dimensional states; integer families, where the float
